@@ -105,7 +105,7 @@ Proof.
     apply andb_true_iff in Econd. destruct Econd as [Eloc Ecap]. apply N.ltb_lt in Eloc.
     unfold cap_allows in Ecap. cbn [cap advance] in Ecap.
     unfold bind at 1. cbn [hop ticks hops names]. unfold on_clone.
-    cbn [advance lim buf tbl fuel0 pos].
+    cbn [advance lim buf tbl fuel0 pos cap].
     destruct (lim c <? loc) eqn:Elim; [apply N.ltb_lt in Elim; lia|].
     pose proof (land_16383 (be (firstn (N.to_nat 2) (rem c)))) as Hl14. fold loc in Hl14.
     assert (Hwc : wf (mkCur (buf c) (tbl c) (fuel0 c) (cap c) (lim c) loc (suffix_at (advance c 2) loc))).
@@ -157,22 +157,28 @@ Proof.
 Qed.
 
 (* Name::read *)
+Lemma hb_hcap c : hb c (pos c) 0 <= hcap c.
+Proof. unfold hb, hcap. destruct (cap c); lia. Qed.
+
 Lemma ok_read_name : ok 0 514 1 read_name.
 Proof.
   intros c l Hc Hl. unfold read_name. unfold bind at 1.
-  pose proof (rd_spec (fuel0 c) [] (pos c) None c l Hc) as R.
+  pose proof (rd_spec (fuel0 c) [] (pos c) None 0 c l Hc) as R.
   assert (Hphi : (N.to_nat (phi (pos c) None c) < fuel0 c)%nat).
   { unfold phi, upper. pose proof (wf_fuel _ Hc). pose proof (wf_lim _ Hc). pose proof (wf_pos _ Hc). lia. }
   specialize (R Hphi (N.le_refl _) ltac:(discriminate) (Forall_nil _) ltac:(cbn; lia)).
-  destruct (rd (fuel0 c) [] (pos c) None c l) as [[r c1] l1].
+  destruct (rd (fuel0 c) [] (pos c) None 0 c l) as [[r c1] l1].
   destruct R as [R1 R2 R3 R4 R5 R6 R7 R8 R9]. change (enc_len []) with 1 in R9.
   assert (Hl1 : names_ok l1) by (unfold names_ok; rewrite R4; exact Hl).
-  assert (Hh : hb (pos c) <= Hmax) by (unfold hb; lia).
+  pose proof (hb_hcap c) as Hh. pose proof (N.le_0_l (hcap c * (pos c1 - pos c))) as Hnn.
   destruct r as [ls|flt].
   - destruct (R6 ls eq_refl) as (P & F1 & F2).
     destruct (255 <=? name_len ls) eqn:E255.
-    + cbn. constructor; cbn; try assumption; try exact I; try discriminate; try (unfold Hmax in *; lia).
-    + cbn. constructor; cbn; try assumption; try exact I; try (unfold Hmax in *; lia).
-      constructor; [split; assumption|exact Hl1].
-  - constructor; cbn; try assumption; try discriminate; try (unfold Hmax in *; lia).
+    + cbn. constructor; cbn; try assumption; try exact I; try discriminate; try (rewrite ?R4; lia).
+    + cbn. constructor; cbn; try assumption; try exact I; try lia.
+      * constructor; [split; assumption|exact Hl1].
+      * assert (hcap c * 1 <= hcap c * (pos c1 - pos c)) by (apply N.mul_le_mono_l; lia). lia.
+      * rewrite R4. change (N.pos (Pos.of_succ_nat (length (names l)))) with (N.of_nat (S (length (names l)))).
+        rewrite Nat2N.inj_succ. lia.
+  - constructor; cbn; try assumption; try discriminate; try (rewrite ?R4; lia).
 Qed.
